@@ -130,8 +130,9 @@ def prepare(scratch):
               "pub fn increment(&self)", "pub fn decrement(&self) -> DecrementAction"]:
         find_header(lib, h)
     harness = read(os.path.join(VERIF, "units/rc/harness.rs"))
-    lib += "\n#[cfg(kani)]\nmod verif_rc {\n" + harness + "\n}\n"
+    lib += "\n#[cfg(kani)]\n#[path = \"verif_rc_harness.rs\"]\nmod verif_rc;\n"
     write(os.path.join(crate, "src/lib.rs"), lib)
+    write(os.path.join(crate, "src/verif_rc_harness.rs"), harness)
     meta = {"unit": NAME, "engine": "E1: whole real crate under Kani; contracts injected in place",
             "source": SRC, "source_sha256": real_sha, "functions_under_contract": FUNCTIONS,
             "extractor_edits": ["none: the crate is copied verbatim; function-contract attributes are inserted above 5 functions; a #[cfg(kani)] harness module is appended"],
@@ -162,16 +163,6 @@ mod verif_rc_canary {
     write(os.path.join(crate, "src/lib.rs"), lib)
     specs.append(canary)
     obs, cmd, out = kani.run_harnesses(crate, specs, NAME, "rc", timeout=2400)
-    nplay = 0
-    for o in obs:
-        if o.status == "failed" and o.kind == "proof":
-            o.output = out[-8000:]
-            nplay += 1
-            if nplay > 1:
-                continue
-            try:
-                o.playback = kani.playback(crate, o.name, "rc")
-            except Exception as ex:  # best effort
-                o.playback = {"error": repr(ex)}
+    kani.attach_counterexamples(obs, crate, "rc", out)
     meta["assumption_scan"] = __import__("vlib.common", fromlist=["scan_assumptions"]).scan_assumptions(harness, "units/rc/harness.rs")
     return obs, meta, cmd
